@@ -335,7 +335,8 @@ func buildInsertEventsParamsDeletedEventKeys(seed uint32, event *mocrelay.Event)
 	}
 
 	for _, tag := range event.Tags {
-		if len(tag) != 2 {
+		// the target is the second element; a relay hint or marker may follow
+		if len(tag) < 2 {
 			continue
 		}
 		if tag[0] != "a" {
@@ -389,7 +390,8 @@ func buildInsertEventsParamsDeletedEventIDs(seed uint32, event *mocrelay.Event) 
 	}
 
 	for _, tag := range event.Tags {
-		if len(tag) != 2 {
+		// the target is the second element; a relay hint or marker may follow
+		if len(tag) < 2 {
 			continue
 		}
 		if tag[0] != "e" {
